@@ -33,7 +33,7 @@ def doc_outcome(src, st, ct, beh):
         b = beh.get(kind, DOC_DEFAULT_BEH[kind])
         if b == "COPY_ANYWAY": return True
         if b == "IGNORE": return False
-        if b == "ERROR_UNLESS_DEFAULT" and v.strip() == DOC_DEFAULTS.get(k, ""): return False
+        if b == "ERROR_UNLESS_DEFAULT" and (v or "").strip() == DOC_DEFAULTS.get(k, ""): return False      # a key-only property (None) counts as empty
         raise KeyError(k)
     props = dict(src["props"])
     if props.get("WARPS"): return ("err", "NotImplementedError")
@@ -61,12 +61,12 @@ def doc_outcome(src, st, ct, beh):
 def ssc_source(rng):
     from simfile.ssc import SSCSimfile, SSCChart
     sf = SSCSimfile.blank()
-    states = lambda k: rng.choice(["absent", "empty", "default", "default", "blanked", "other"])
+    states = lambda k: rng.choice(["absent", "empty", "default", "default", "blanked", "other", "keyonly"])
     for kind, keys in DOC_SIM.items():
         for k in keys:
             s = states(k)
             if k == "WARPS":
-                s = rng.choice(["absent", "empty", "empty", "empty", "value"])
+                s = rng.choice(["absent", "empty", "empty", "empty", "value", "keyonly"])
                 if s == "value":
                     # well-formed, non-empty warp lists of every shape: zero-length warps, several rows, rows over several lines
                     sf[k] = rng.choice(["4.000=1.000", "8.000=0.000", "8.000=0.000,\n12.000=0.000", "0.000=0.500", "4.000=0.000,8.000=2.000",
@@ -74,6 +74,7 @@ def ssc_source(rng):
             if s == "absent":
                 if k in sf: del sf[k]
             elif s == "empty": sf[k] = ""
+            elif s == "keyonly": sf[k] = None      # loaded from a key-only parameter such as #LABELS;
             elif s == "default": sf[k] = DOC_DEFAULTS.get(k, "")
             elif s == "blanked": sf[k] = " " + DOC_DEFAULTS.get(k, "") + "\n"
             else: sf[k] = rng.choice(["x", "1.000=2", "0.83", "a.png"])
@@ -88,6 +89,7 @@ def ssc_source(rng):
                 if s == "absent":
                     if k in c: del c[k]
                 elif s == "empty": c[k] = ""
+                elif s == "keyonly": c[k] = None
                 elif s == "default": c[k] = DOC_DEFAULTS.get(k, "")
                 elif s == "blanked": c[k] = "  " + DOC_DEFAULTS.get(k, "") + " "
                 else: c[k] = rng.choice(["y", "0.000=120.000", "2"])
